@@ -32,13 +32,39 @@ RULE = ("single fields: every shape HxW <= bound (5x5 thorough, 4x4 quick) x eve
         "in a third of the cases and in most lone 2-D pairs, each lone 2-D call repeated with a length-1 extra dim), random reduce/preserve spelling, both "
         "paddings; fss_2d_binary on bool and 0/1 float fields; large neighbourhoods: fields 12..40, 64..128 and 240..300 cells a side with widespread events "
         "(dry strips, density 0.8-0.97, all-event, identical, shifted blobs; sparse control), windows mostly >= 90% of the side, both paddings, four operators, "
-        "float/int32/int64 storage, through all three entry points, decided by exact int64/Python-integer window counting. A case is "
+        "float/int32/int64 storage, through all three entry points, decided by exact int64/Python-integer window counting; optional arguments: in every "
+        "stream each optional argument whose intended value is the documented default is left out or written out at random (threshold_operator "
+        "left out / None / np.greater, zero_padding, compute_method, dask in {forbidden, allowed, parallelized} on numpy data, reduce/preserve None, "
+        "check_boolean), and per run 2 (fss_2d, single field) + 1 (fss_2d_binary) stacks of whole-number fields with cells equal to the threshold get "
+        "the full product of those spellings x nine reduce/preserve requests x both spatial_dims orders; +-inf cells and thresholds, unsigned "
+        "storage, 0/1 fields stored as uint8/int8; a backend other than NUMPY. A case is "
         "distinct by (function, fields, threshold, operator, window, padding, request) and non-trivial when some field contains an event")
 ASSUMPTIONS = ["event counts are integers <= 9e4 and the sums of their squares stay below 2^53: binary64 evaluates the component means and the final ratio to within 1e-9 of the exact rational"]
 TRUSTED = ["xr.apply_ufunc(vectorize=True) over the non-spatial dims is modelled as a loop over the broadcast (inner-joined) index space",
            "fields larger than 20x20 (padded) / 64x64 (128x128 thorough, unpadded) are not sent through the extracted model (too slow: 35 s for one 256x256 field): "
            "their oracle is harness code (c16.py::fast_sums, int64 prefix sums + Python integers), cross-checked in every run against direct counting on small "
            "fields and against the extracted model on the medium ones"]
+
+# counters every complete run (quick or thorough, any seed) must have incremented: one per predicate family / input class
+EXPECT_COUNTS = [
+    "single:agree", "single:known", "single:err", "geometry", "input_unchanged",
+    "op:gt", "op:ge", "op:lt", "op:le", "with_nan", "with_inf", "threshold:infinite", "dtype:int/int", "dtype:int/float", "dtype:uint",
+    "tie:single:operator=omitted", "tie:single:operator=None", "tie:single:operator=explicit",
+    "tie:multi:operator=omitted", "tie:multi:operator=None", "tie:multi:operator=explicit",
+    "spelling:threshold_operator=omitted", "spelling:threshold_operator=None", "spelling:zero_padding=omitted",
+    "spelling:compute_method=explicit", "spelling:dask=forbidden", "spelling:dask=allowed", "spelling:dask=parallelized",
+    "spelling:reduce_dims=explicit", "spelling:preserve_dims=explicit", "spelling:check_boolean=omitted",
+    "options:fss_2d", "options:fss_2d_binary", "options:fss_2d_single_field", "options:tie_changes_every_score",
+    "options:threshold_operator=omitted", "options:threshold_operator=None", "options:zero_padding=omitted", "options:check_boolean=omitted",
+    "malformed:shape", "malformed:wbig", "malformed:wzero", "malformed:wneg", "malformed:badop", "malformed:compute_method",
+    "multi:agree", "multi:err", "multi:known", "multi:spatial_labels_in_another_order", "multi:spatial_extent_differs", "multi:window_too_big",
+    "multi:with_inf", "multi:dtype:uint", "multi:extra_dims=0", "multi:extra_dims=2", "multi:out_ndim=0", "multi:out_ndim=1",
+    "lone_2d:vs_length1_dim", "lone_2d:spatial_labels_in_another_order",
+    "binary:agree", "binary:err", "binary:vs_thresholding", "binary:non_boolean_refused", "binary:storage=bool", "binary:storage=float64", "binary:storage=uint8",
+    "aggregate:by_components", "aggregate:differs_from_mean_of_scores",
+    "dense:medium:", "dense:mid:", "dense:large:", "dense:window_count>46340", "dense:oracle_vs_direct_counting", "dense:oracle_vs_model",
+    "dense:xarray_fields=",
+]
 
 FINDING = "fss-zero-padding-odd-window"
 OPS = ["gt", "ge", "lt", "le"]
@@ -50,6 +76,77 @@ def np_op(name):
 
 def enc_rows(a):
     return enc_list([enc_nums(row) for row in np.asarray(a, dtype=float)])
+
+
+# ------------------------------------------------------------------------------------------
+# how the optional arguments of a public call are written (round 4)
+# ------------------------------------------------------------------------------------------
+# An optional argument whose intended value is the documented default can be written in several ways by a caller: left out, or given
+# explicitly (threshold_operator also as None).  All of them must mean the documented default: `>` for the operator, no padding,
+# the numpy backend, dask="forbidden" (which has no effect on numpy-backed data, like "allowed" / "parallelized"), no reduce/preserve
+# request, check_boolean=True.  The spelling is part of the replayable case.
+DASK_SPELLINGS = ["omitted", "omitted", "omitted", "forbidden", "allowed", "parallelized"]
+OLD_SPELLING = {"threshold_operator": "explicit", "zero_padding": "explicit"}      # replay files written before round 4
+
+
+def rand_spelling(rng, fn, op="gt", pad=False, rd=None, pd=None, check=True):
+    sp = {"zero_padding": "explicit" if pad else rng.choice(["omitted", "explicit"]),
+          "compute_method": rng.choice(["omitted", "omitted", "explicit"])}
+    if fn != "fss_2d_binary":
+        sp["threshold_operator"] = rng.choice(["omitted", "None", "explicit"]) if op == "gt" else "explicit"
+    else:
+        sp["check_boolean"] = rng.choice(["omitted", "explicit"]) if check else "explicit"
+    if fn != "fss_2d_single_field":
+        sp["dask"] = rng.choice(DASK_SPELLINGS)
+        sp["reduce_dims"] = "explicit" if rd is not None else rng.choice(["omitted", "omitted", "explicit"])
+        sp["preserve_dims"] = "explicit" if pd is not None else rng.choice(["omitted", "omitted", "explicit"])
+    return sp
+
+
+def spelled_kwargs(sp, op="gt", pad=False, rd=None, pd=None, check=True):
+    """the optional keyword arguments of one call, written as `sp` says; an argument may only be left out (or None) when the intended
+    value is the documented default"""
+    from scores.fast.fss.typing import FssComputeMethod
+    kw = {}
+    s = sp.get("threshold_operator")
+    if s == "explicit":
+        kw["threshold_operator"] = np_op(op)
+    elif s is not None:
+        assert op == "gt", "only the default operator can be left out"
+        if s == "None":
+            kw["threshold_operator"] = None
+    if sp.get("zero_padding", "explicit") == "explicit":
+        kw["zero_padding"] = pad
+    else:
+        assert not pad
+    if sp.get("compute_method", "omitted") == "explicit":
+        kw["compute_method"] = FssComputeMethod.NUMPY
+    if sp.get("dask", "omitted") != "omitted":
+        kw["dask"] = sp["dask"]
+    if rd is not None or sp.get("reduce_dims", "omitted") == "explicit":
+        kw["reduce_dims"] = rd
+    if pd is not None or sp.get("preserve_dims", "omitted") == "explicit":
+        kw["preserve_dims"] = pd
+    if "check_boolean" in sp:
+        if sp["check_boolean"] == "explicit":
+            kw["check_boolean"] = check
+        else:
+            assert check
+    return kw
+
+
+def count_spelling(ctx, sp):
+    for k, v in sp.items():
+        ctx.count("spelling:%s=%s" % (k, v))
+
+
+def parse_th(x):
+    """threshold of a stored case (a rational, or +-inf)"""
+    if isinstance(x, str) and x.lstrip("+-") in ("inf", "Infinity"):
+        return float(x.replace("Infinity", "inf"))
+    if isinstance(x, float) and math.isinf(x):
+        return x
+    return Fraction(x)
 
 
 def odd3(w):
@@ -123,10 +220,18 @@ def py_sums(f, o, th, op, wh, ww, pad, code):
     H, W = f.shape
     if wh > H or ww > W or wh < 1 or ww < 1:
         return "err:ValueError"
-    cmp = {"gt": lambda v: v > th, "ge": lambda v: v >= th, "lt": lambda v: v < th, "le": lambda v: v <= th}[op]
+    cmp = {"gt": lambda v, t: v > t, "ge": lambda v, t: v >= t, "lt": lambda v, t: v < t, "le": lambda v, t: v <= t}[op]
+    th_inf = isinstance(th, float) and math.isinf(th)
+
+    def event(x):
+        if isinstance(x, float) and math.isnan(x):
+            return 0
+        if th_inf or (isinstance(x, float) and math.isinf(x)):
+            return int(cmp(float(x), float(th)))          # an infinite cell or threshold: the order of the extended reals
+        return int(cmp(Fraction(x), th))
 
     def binar(a):
-        return [[0 if (isinstance(x, float) and math.isnan(x)) else int(cmp(Fraction(x))) for x in row] for row in a.tolist()]
+        return [[event(x) for x in row] for row in a.tolist()]
     bf, bo = binar(f), binar(o)
     hh, hw = (wh // 2, ww // 2) if pad else (0, 0)
     nr = (H + 1 if code else H + 2 * hh - wh + 1) if pad else H - wh + 1
@@ -186,6 +291,25 @@ def events_of(a, th, op):
         return np_op(op)(np.asarray(a), float(th)).astype(np.int64)
 
 
+def snapshot(*arrays):
+    return [a.copy(deep=True) if isinstance(a, xr.DataArray) else np.array(a, copy=True) for a in arrays]
+
+
+def inputs_unchanged(ctx, what, desc, arrays, before):
+    """a call must not write into the arrays it is given"""
+    ctx.count("input_unchanged")
+    for name, a, b in zip(("fcst", "obs"), arrays, before):
+        av, bv = (a.values, b.values) if isinstance(a, xr.DataArray) else (np.asarray(a), b)
+        if av.dtype != bv.dtype or av.shape != bv.shape or not np.array_equal(av, bv, equal_nan=av.dtype.kind == "f"):
+            ctx.violation(what + " modifies the %s array it is given" % name, desc, bv.tolist(), av.tolist())
+
+
+def has_tie(f, o, th):
+    """some cell of fcst or obs is exactly equal to the threshold (an event for >= / <=, not for > / <)"""
+    with np.errstate(invalid="ignore"):
+        return bool((np.asarray(f) == float(th)).any() or (np.asarray(o) == float(th)).any())
+
+
 def model_single(ctx, f, o, th, op, wh, ww, pad):
     if no_model(ctx):
         return py_fss(f, o, th, op, wh, ww, pad, True), py_fss(f, o, th, op, wh, ww, pad, False)
@@ -193,19 +317,24 @@ def model_single(ctx, f, o, th, op, wh, ww, pad):
     return num_or_err(m[0]), num_or_err(m[1])
 
 
-def single_case(ctx, S, f, o, th, op, wh, ww, pad, sample=False):
-    kw = dict(event_threshold=float(th), window_size=(wh, ww), zero_padding=pad)
-    if op != "gt" or ctx.rng.random() < 0.5:
-        kw["threshold_operator"] = np_op(op)
+def single_case(ctx, S, f, o, th, op, wh, ww, pad, sample=False, spelling=None):
+    sp = spelling if spelling is not None else rand_spelling(ctx.rng, "fss_2d_single_field", op, pad)
+    kw = dict(event_threshold=float(th), window_size=(wh, ww), **spelled_kwargs(sp, op, pad))
+    count_spelling(ctx, sp)
+    before = snapshot(f, o)
     impl = core.call_impl(S.spatial.fss_2d_single_field, f, o, **kw)
-    sat, spec = model_single(ctx, f, o, th, op, wh, ww, pad)
+    sat, spec = model_single(ctx, before[0], before[1], th, op, wh, ww, pad)
     desc = {"fn": "fss_2d_single_field", "fcst": np.asarray(f).tolist(), "obs": np.asarray(o).tolist(),
             "fcst_dtype": str(np.asarray(f).dtype), "obs_dtype": str(np.asarray(o).dtype), "event_threshold": th,
-            "operator": op, "window_size": [wh, ww], "zero_padding": pad}
-    events = bool(np_op(op)(f, float(th)).any() or np_op(op)(o, float(th)).any()) if impl[0] == "ok" else False
+            "operator": op, "window_size": [wh, ww], "zero_padding": pad, "spelling": sp}
+    with np.errstate(invalid="ignore"):
+        events = bool(np_op(op)(f, float(th)).any() or np_op(op)(o, float(th)).any()) if impl[0] == "ok" else False
     ctx.case(desc, events)
     if sample:
         ctx.sample(desc)
+    inputs_unchanged(ctx, "fss_2d_single_field", desc, (f, o), before)
+    if impl[0] == "ok" and has_tie(f, o, th):
+        ctx.count("tie:single:operator=" + sp.get("threshold_operator", "explicit"))
     verdict = judge_scalar(ctx, "fss_2d_single_field", desc, impl, sat, spec, pad, wh, ww)
     ctx.count("single:" + verdict)
     # outside the finding's condition the code-faithful model and the specification agree by theorem; inside, the code equals the
@@ -237,10 +366,12 @@ def rand_pair(rng, H, W):
     return f, o
 
 
-def rand_values(rng, H, W, nan_p):
+def rand_values(rng, H, W, nan_p, inf_p=0.0):
     def cell():
         if rng.random() < nan_p:
             return float("nan")
+        if inf_p and rng.random() < inf_p:
+            return rng.choice([float("inf"), float("-inf")])
         return rng.randint(-4, 4) / 2.0
     return np.array([[cell() for _ in range(W)] for _ in range(H)])
 
@@ -294,15 +425,25 @@ def thresholds_and_nan(ctx, S, n):
             return
         H, W = rng.randint(1, 5), rng.randint(1, 5)
         nan_p = rng.choice([0.0, 0.15, 0.3])
-        f, o = rand_values(rng, H, W, nan_p), rand_values(rng, H, W, nan_p)
+        # infinite cells are ordinary data: +inf exceeds every finite threshold, -inf none (only NaN is "no data", a non-event)
+        inf_p = rng.choice([0.0, 0.0, 0.15])
+        f, o = rand_values(rng, H, W, nan_p, inf_p), rand_values(rng, H, W, nan_p, inf_p)
         th = Fraction(rng.randint(-4, 4), 2)
+        if rng.random() < 0.04:
+            th = rng.choice([float("inf"), float("-inf")])       # an infinite threshold: `>= inf` holds for +inf cells only, ...
+            ctx.count("threshold:infinite")
         op = rng.choice(OPS)
         dmode = rng.random()
         if dmode < 0.4:
             # integer-dtype forecast (obs integer or float on the finer grid k/4) with a fractional threshold: the comparison must be
-            # made against the threshold as given, not against one converted to the data's dtype
-            nan_p = 0.0
-            f = np.array([[rng.randint(-3, 3) for _ in range(W)] for _ in range(H)], dtype=rng.choice([np.int64, np.int32]))
+            # made against the threshold as given, not against one converted to the data's dtype; unsigned storage is as good as
+            # signed (the fields are only compared with the threshold and counted)
+            nan_p = inf_p = 0.0
+            dt = rng.choice([np.int64, np.int32, np.uint8, np.uint16])
+            lo = 0 if dt in (np.uint8, np.uint16) else -3
+            if lo == 0:
+                ctx.count("dtype:uint")
+            f = np.array([[rng.randint(lo, 3) for _ in range(W)] for _ in range(H)], dtype=dt)
             if dmode < 0.2:
                 o = np.array([[rng.randint(-3, 3) for _ in range(W)] for _ in range(H)], dtype=np.int64)
                 ctx.count("dtype:int/int")
@@ -318,8 +459,10 @@ def thresholds_and_nan(ctx, S, n):
         ctx.count("op:" + op)
         if nan_p:
             ctx.count("with_nan")
+        if inf_p and (np.isinf(np.asarray(f, dtype=float)).any() or np.isinf(np.asarray(o, dtype=float)).any()):
+            ctx.count("with_inf")
         # NaN cells are non-events: replacing them by a value that is not an event changes nothing
-        if impl[0] == "ok" and (np.isnan(f).any() or np.isnan(o).any()):
+        if impl[0] == "ok" and not isinstance(th, float) and (np.isnan(f).any() or np.isnan(o).any()):
             non_event = float(th) - 1 if op in ("gt", "ge") else float(th) + 1
             f2, o2 = np.where(np.isnan(f), non_event, f), np.where(np.isnan(o), non_event, o)
             impl2 = core.call_impl(S.spatial.fss_2d_single_field, f2, o2, event_threshold=float(th), window_size=(wh, ww), zero_padding=pad,
@@ -339,14 +482,41 @@ def thresholds_and_nan(ctx, S, n):
                 ctx.violation("FSS outside [0,1]", {"fcst": f.tolist(), "obs": o.tolist()}, "[0,1]", float(impl[1]))
 
 
+MALFORMED_KINDS = ["shape", "wbig", "wzero", "wneg", "badop", "compute_method"]
+
+
 def malformed_single(ctx, S, n):
     rng = ctx.rng
-    for _ in range(n):
+    for idx in range(n):
         H, W = rng.randint(1, 4), rng.randint(1, 4)
         f = rand_binary(rng, H, W)
-        kind = rng.choice(["shape", "wbig", "wzero", "wneg", "badop"])
+        kind = MALFORMED_KINDS[idx % len(MALFORMED_KINDS)]           # every kind in every run
         o = rand_binary(rng, H, W)
         wh, ww = rng.randint(1, H), rng.randint(1, W)
+        if kind == "compute_method":
+            # a backend other than NUMPY ("currently only supports NUMPY"): the call raises -- or, should the backend exist one day,
+            # returns the score of the definition; never some other number
+            from scores.fast.fss.typing import FssComputeMethod
+            cm = rng.choice([FssComputeMethod.NUMBA, FssComputeMethod.INVALID])
+            pad = rng.random() < 0.5
+            which = rng.choice(["fss_2d_single_field", "fss_2d", "fss_2d_binary"])
+            if which == "fss_2d_single_field":
+                impl = core.call_impl(S.spatial.fss_2d_single_field, f, o, event_threshold=0.5, window_size=(wh, ww), zero_padding=pad, compute_method=cm)
+            else:
+                da_f, da_o = xr.DataArray(f, dims=["x", "y"]), xr.DataArray(o, dims=["x", "y"])
+                if which == "fss_2d":
+                    impl = core.call_impl(S.spatial.fss_2d, da_f, da_o, event_threshold=0.5, window_size=(wh, ww), spatial_dims=("x", "y"),
+                                          zero_padding=pad, compute_method=cm)
+                else:
+                    impl = core.call_impl(S.spatial.fss_2d_binary, da_f > 0.5, da_o > 0.5, window_size=(wh, ww), spatial_dims=("x", "y"),
+                                          zero_padding=pad, compute_method=cm)
+            desc = {"fn": which, "fcst": f.tolist(), "obs": o.tolist(), "window_size": [wh, ww], "zero_padding": pad, "compute_method": str(cm)}
+            ctx.case(desc, False)
+            if impl[0] == "ok":
+                judge_scalar(ctx, which + " with a backend other than NUMPY", desc, ("ok", float(impl[1])),
+                             py_fss(f, o, Fraction(1, 2), "gt", wh, ww, pad, True), py_fss(f, o, Fraction(1, 2), "gt", wh, ww, pad, False), pad, wh, ww)
+            ctx.count("malformed:compute_method")
+            continue
         if kind == "shape":
             o = rand_binary(rng, H + rng.choice([0, 1]), W + 1)
         elif kind == "wbig":
@@ -447,11 +617,18 @@ def gen_multi(ctx, binary=False):
         return da.sortby("x").sortby("y")
     fcst, obs = mk(fd), mk(od)
     if not binary and rng.random() < 0.25:
-        # integer-dtype fields (thresholds are fractional in half of the cases)
+        # integer-dtype fields (thresholds are fractional in half of the cases); unsigned storage (amounts shifted to 0..4) in a third
+        unsigned = rng.random() < 0.33
         if not bool(np.isnan(fcst.values).any()):
-            fcst = np.floor(fcst).astype(np.int64)
+            fcst = (np.floor(fcst) + 2).astype(rng.choice([np.uint8, np.uint16])) if unsigned else np.floor(fcst).astype(np.int64)
         if rng.random() < 0.5 and not bool(np.isnan(obs.values).any()):
-            obs = np.floor(obs).astype(np.int64)
+            obs = (np.floor(obs) + 2).astype(np.uint8) if unsigned else np.floor(obs).astype(np.int64)
+    elif not binary and rng.random() < 0.15:
+        # infinite cells are data like any other (+inf beyond every finite threshold, -inf below): only NaN is a non-event by nature
+        for da in (fcst, obs):
+            for _ in range(rng.randint(0, 2)):
+                if da.size:
+                    da.values.flat[rng.randrange(da.size)] = rng.choice([float("inf"), float("-inf")])
     if rng.random() < 0.1 and set(fcst.dims) == set(obs.dims):
         obs = fcst.transpose(*obs.dims).copy()
         for d in obs.dims:
@@ -488,16 +665,18 @@ def multi_cases(ctx, S, n):
         elif r < 0.10 and obs.sizes["x"] > 1:
             obs = obs.isel(x=slice(0, obs.sizes["x"] - 1))      # spatial extents differ
             ctx.count("multi:spatial_extent_differs")
-        kw = dict(event_threshold=float(th), window_size=(wh, ww), spatial_dims=sp, zero_padding=pad, threshold_operator=np_op(op))
-        if rd is not None:
-            kw["reduce_dims"] = rd
-        if pd is not None:
-            kw["preserve_dims"] = pd
+        spl = rand_spelling(rng, "fss_2d", op, pad, rd, pd)
+        kw = dict(event_threshold=float(th), window_size=(wh, ww), spatial_dims=sp, **spelled_kwargs(spl, op, pad, rd, pd))
+        count_spelling(ctx, spl)
         # window sizes follow the order of spatial_dims
         H, W = fcst.sizes.get(sp[0], 1), fcst.sizes.get(sp[1], 1)
         if wh > H or ww > W:
             ctx.count("multi:window_too_big")
+        before = snapshot(fcst, obs)
         impl = core.call_impl(S.spatial.fss_2d, fcst, obs, **kw)
+        inputs_unchanged(ctx, "fss_2d", {"fn": "fss_2d", "fcst": gens.da_repr(before[0]), "obs": gens.da_repr(before[1]), "window_size": [wh, ww],
+                                         "zero_padding": pad}, (fcst, obs), before)
+        fcst, obs = before
         mf, mo = model_view(fcst, obs)
         m = ctx.model("c16_fss2d", enc_list([enc_arr(mf), enc_arr(mo), enc_num(th), enc_str(op), str(wh), str(ww),
                                              enc_list([enc_str(s) for s in sp]), enc_bool(pad), enc_dimspec(rd), enc_dimspec(pd)]))
@@ -505,12 +684,18 @@ def multi_cases(ctx, S, n):
             ctx.count("multi:spatial_labels_in_another_order")
         desc = {"fn": "fss_2d", "fcst": gens.da_repr(fcst), "obs": gens.da_repr(obs), "fcst_dtype": str(fcst.dtype), "obs_dtype": str(obs.dtype),
                 "event_threshold": th, "operator": op, "window_size": [wh, ww],
-                "spatial_dims": list(sp), "zero_padding": pad, "reduce_dims": rd, "preserve_dims": pd}
+                "spatial_dims": list(sp), "zero_padding": pad, "reduce_dims": rd, "preserve_dims": pd, "spelling": spl}
         ctx.case(desc, impl[0] == "ok")
         if i < 2:
             ctx.sample(desc)
         v = judge_array(ctx, "fss_2d", desc, impl, m[0], m[1], pad, wh, ww)
         ctx.count("multi:" + v)
+        if impl[0] == "ok" and has_tie(fcst.values, obs.values, th):
+            ctx.count("tie:multi:operator=" + spl["threshold_operator"])
+        if fcst.dtype.kind == "u" or obs.dtype.kind == "u":
+            ctx.count("multi:dtype:uint")
+        if (fcst.dtype.kind == "f" and np.isinf(fcst.values).any()) or (obs.dtype.kind == "f" and np.isinf(obs.values).any()):
+            ctx.count("multi:with_inf")
         lone_vs_stacked(ctx, S.spatial.fss_2d, "fss_2d", desc, fcst, obs, impl, kw)
         ctx.count("multi:extra_dims=%d" % (len(set(fcst.dims) | set(obs.dims)) - 2))
         if impl[0] == "ok":
@@ -525,19 +710,31 @@ def binary_cases(ctx, S, n):
         fcst, obs, wh, ww, pad, rd, pd = gen_multi(ctx, binary=True)
         as_bool = rng.random() < 0.6
         check = True if as_bool else (rng.random() < 0.2)
-        fb, ob = (fcst.astype(bool), obs.astype(bool)) if as_bool else (fcst, obs)
-        kw = dict(window_size=(wh, ww), spatial_dims=("x", "y"), zero_padding=pad, check_boolean=check)
-        if rd is not None:
-            kw["reduce_dims"] = rd
-        if pd is not None:
-            kw["preserve_dims"] = pd
+        # non-boolean storage of a 0/1 field: float, or (a third) an unsigned / small signed integer type
+        store = "bool" if as_bool else rng.choice(["float64", "float64", "uint8", "int8"])
+        fb, ob = fcst.astype(store), obs.astype(store)
+        spl = rand_spelling(rng, "fss_2d_binary", "gt", pad, rd, pd, check)
+        kw = dict(window_size=(wh, ww), spatial_dims=("x", "y"), **spelled_kwargs(spl, "gt", pad, rd, pd, check))
+        count_spelling(ctx, spl)
+        ctx.count("binary:storage=" + store)
+        before = snapshot(fb, ob)
         impl = core.call_impl(S.spatial.fss_2d_binary, fb, ob, **kw)
+        inputs_unchanged(ctx, "fss_2d_binary", {"fn": "fss_2d_binary", "fcst": gens.da_repr(fcst), "obs": gens.da_repr(obs), "storage": store,
+                                                "window_size": [wh, ww], "zero_padding": pad}, (fb, ob), before)
+        fb, ob = before
         mf, mo = model_view(fcst, obs)
         m = None if no_model(ctx) else ctx.model("c16_binary", enc_list([enc_arr(mf), enc_arr(mo), enc_bool(as_bool), enc_bool(check), str(wh), str(ww),
                                                                        enc_list([enc_str("x"), enc_str("y")]), enc_bool(pad), enc_dimspec(rd), enc_dimspec(pd)]))
-        desc = {"fn": "fss_2d_binary", "fcst": gens.da_repr(fcst), "obs": gens.da_repr(obs), "bool_dtype": as_bool, "check_boolean": check,
-                "window_size": [wh, ww], "zero_padding": pad, "reduce_dims": rd, "preserve_dims": pd}
+        desc = {"fn": "fss_2d_binary", "fcst": gens.da_repr(fcst), "obs": gens.da_repr(obs), "bool_dtype": as_bool, "storage": store,
+                "check_boolean": check, "window_size": [wh, ww], "zero_padding": pad, "reduce_dims": rd, "preserve_dims": pd, "spelling": spl}
         ctx.case(desc, impl[0] == "ok")
+        if check and not as_bool:
+            # the boolean check is on (written out or by default): a field that is not of boolean type is refused, not scored
+            ctx.count("binary:non_boolean_refused")
+            if impl[0] == "ok":
+                ctx.violation("fss_2d_binary scores a non-boolean field although check_boolean is on (check_boolean %s)"
+                              % ("left out" if spl["check_boolean"] == "omitted" else "True"), desc, "FieldTypeError", gens.da_repr(impl[1]))
+                continue
         if m is not None:
             v = judge_array(ctx, "fss_2d_binary", desc, impl, m[0], m[1], pad, wh, ww)
             ctx.count("binary:" + v)
@@ -546,6 +743,7 @@ def binary_cases(ctx, S, n):
         if impl[0] == "ok":
             kw2 = {k: v_ for k, v_ in kw.items() if k != "check_boolean"}
             impl2 = core.call_impl(S.spatial.fss_2d, fcst, obs, event_threshold=0.5, **kw2)
+            ctx.count("binary:vs_thresholding")
             same = impl2[0] == "ok" and impl2[1].dims == impl[1].dims and np.allclose(np.asarray(impl2[1].values, dtype=float),
                                                                                         np.asarray(impl[1].values, dtype=float), atol=1e-9)
             if not same:
@@ -592,6 +790,7 @@ def aggregation_cases(ctx, S, n):
             m = core.dec_num(ctx.model("c16_aggregate", enc_list([enc_list([enc_list([enc_num(x) for x in c]) for c in comps])])))
         desc = {"fn": "fss_2d(reduce t)", "fcst": f.values.tolist(), "obs": o.values.tolist(), "window_size": [wh, ww], "zero_padding": pad}
         ctx.case(desc)
+        ctx.count("aggregate:by_components")
         if agg[0] != "ok" or not core.close(float(agg[1]), m):
             ctx.violation("multi-field FSS is not formed from the means of the three component sums", desc, m, str(agg[1]))
         per = core.call_impl(S.spatial.fss_2d, f, o, preserve_dims=["t"], **kw)
@@ -613,15 +812,18 @@ def multi_relations(ctx, S, n):
         extra = [d for d in fa.dims if d not in ("x", "y")]
         fa, oa = fa.transpose(*extra, "x", "y"), oa.transpose(*extra, "x", "y")
         kw = dict(event_threshold=float(th), window_size=(wh, ww), zero_padding=pad, threshold_operator=np_op(op))
-        impl = core.call_impl(S.spatial.fss_2d, fcst, obs, spatial_dims=("x", "y"), preserve_dims=extra, **kw)
+        spl = rand_spelling(rng, "fss_2d", op, pad, None, extra)
+        kw2 = dict(event_threshold=float(th), window_size=(wh, ww), spatial_dims=("x", "y"), **spelled_kwargs(spl, op, pad, None, extra))
+        count_spelling(ctx, spl)
+        impl = core.call_impl(S.spatial.fss_2d, fcst, obs, **kw2)
         desc = {"fn": "fss_2d", "fcst": gens.da_repr(fcst), "obs": gens.da_repr(obs), "fcst_dtype": str(fcst.dtype), "obs_dtype": str(obs.dtype),
                 "event_threshold": th, "operator": op, "window_size": [wh, ww], "spatial_dims": ["x", "y"], "zero_padding": pad,
-                "reduce_dims": None, "preserve_dims": extra}
+                "reduce_dims": None, "preserve_dims": extra, "spelling": spl}
         ctx.case(desc, impl[0] == "ok")
         if impl[0] != "ok":
             ctx.violation("fss_2d raises on a valid input", desc, "values", impl[1])
             continue
-        lone_vs_stacked(ctx, S.spatial.fss_2d, "fss_2d", desc, fcst, obs, impl, dict(kw, spatial_dims=("x", "y")))
+        lone_vs_stacked(ctx, S.spatial.fss_2d, "fss_2d", desc, fcst, obs, impl, kw2)
         res = impl[1].transpose(*extra)
         for idx in itertools.product(*[range(fa.sizes[d]) for d in extra]):
             sel = dict(zip(extra, idx))
@@ -632,6 +834,148 @@ def multi_relations(ctx, S, n):
                 ctx.violation("fss_2d with all extra dims preserved differs from fss_2d_single_field on the slice", dict(desc, slice=str(lab)),
                               str(one[1]), got)
         ctx.count("multi:per_slice_relation")
+
+
+# ------------------------------------------------------------------------------------------
+# every optional argument left out and written out (round 4)
+# ------------------------------------------------------------------------------------------
+REQUESTS = [("omitted", {}, False), ("reduce_dims=None", {"reduce_dims": None}, False), ("preserve_dims=None", {"preserve_dims": None}, False),
+            ("reduce_dims=['t']", {"reduce_dims": ["t"]}, False), ("reduce_dims='t'", {"reduce_dims": "t"}, False),
+            ("reduce_dims='all'", {"reduce_dims": "all"}, False), ("preserve_dims=['t']", {"preserve_dims": ["t"]}, True),
+            ("preserve_dims='t'", {"preserve_dims": "t"}, True), ("preserve_dims='all'", {"preserve_dims": "all"}, True)]
+OPERATOR_SPELLINGS = ["omitted", "None", "explicit"]
+PADDING_SPELLINGS = ["omitted", "False", "True"]
+
+
+def stack_expected(fs, os_, th, op, wh, ww, pad):
+    """exact scores of T stacked field pairs by direct window counting: ((aggregate, per field) with the window positions the recorded
+    finding uses, (aggregate, per field) by the definition)"""
+    out = []
+    for code in (True, False):
+        sums = [py_sums(f, o, th, op, wh, ww, pad, code) for f, o in zip(fs, os_)]
+        tot = tuple(sum(x) for x in zip(*sums))
+        out.append((fss_of_sums(tot), [fss_of_sums(t) for t in sums]))
+    return out
+
+
+def tie_stack(rng, T):
+    """T stacked pairs of fields of whole-number amounts 0..3 and a threshold that is one of the amounts: fcst and obs both have cells
+    exactly equal to the threshold, and counting those cells as events (`>=`) would change the aggregate and every per-field score in
+    both padding modes -- so a call that means anything but `>` by a left-out operator cannot agree with the definition"""
+    while True:
+        H, W = rng.randint(2, 4), rng.randint(2, 4)
+        wh, ww = rng.randint(1, H), rng.randint(1, W)
+        th = Fraction(rng.choice([0, 1, 1, 2]))
+        fs = [np.array([[float(rng.randint(0, 3)) for _ in range(W)] for _ in range(H)]) for _ in range(T)]
+        os_ = [np.array([[float(rng.randint(0, 3)) for _ in range(W)] for _ in range(H)]) for _ in range(T)]
+        if not all((f == float(th)).any() and (o == float(th)).any() for f, o in zip(fs, os_)):
+            continue
+        ok = True
+        for pad in (False, True):
+            gt, ge = stack_expected(fs, os_, th, "gt", wh, ww, pad), stack_expected(fs, os_, th, "ge", wh, ww, pad)
+            for code in (0, 1):
+                ok = ok and gt[code][0] != ge[code][0] and all(a != b for a, b in zip(gt[code][1], ge[code][1]))
+        if ok and (H, W) != (wh, ww):
+            return H, W, wh, ww, th, fs, os_
+
+
+def judge_stack(ctx, what, desc, impl, preserved, exp, pad, wh, ww):
+    """impl: call_impl result of an xarray entry point on the stacked fields; exp = stack_expected(...)"""
+    (asat, psat), (aspec, pspec) = exp
+    if impl[0] != "ok":
+        ctx.violation(what + " raises on a valid input", desc, str(pspec if preserved else aspec), str(impl[1])[:200])
+        return
+    res = impl[1]
+    want_dims = ("t",) if preserved else ()
+    if tuple(res.dims) != want_dims:
+        ctx.violation(what + ": dimensions of the result", desc, list(want_dims), list(res.dims))
+        return
+    vals = [float(v) for v in np.atleast_1d(res.values)]
+    sats, specs = (psat, pspec) if preserved else ([asat], [aspec])
+    for k, (v, sa, spc) in enumerate(zip(vals, sats, specs)):
+        judge_scalar(ctx, what, dict(desc, field=k) if preserved else desc, ("ok", v), sa, spc, pad, wh, ww)
+
+
+def written_call(ctx, S, c, exp=None):
+    """one call of fss_2d / fss_2d_binary on stacked fields (dims t, x, y) with its optional arguments written as c["written"] says,
+    judged against direct window counting of `value > event_threshold` events (exp: the cached stack_expected per padding mode)"""
+    from scores.fast.fss.typing import FssComputeMethod
+    wr = c["written"]
+    th = parse_th(c["event_threshold"])
+    da_f, da_o = gens.da_from_repr(c["fcst"]), gens.da_from_repr(c["obs"])
+    sdims, win = tuple(c["spatial_dims"]), tuple(int(w) for w in c["window_size"])
+    wh, ww = win if sdims == ("x", "y") else win[::-1]
+    pad = {"omitted": False, "False": False, "True": True}[wr["zero_padding"]]
+    rname, rkw, preserved = [r for r in REQUESTS if r[0] == wr["request"]][0]
+    if exp is None:
+        fs, os_ = da_f.transpose("t", "x", "y").values, da_o.transpose("t", "x", "y").values
+        exp = {pad: stack_expected(list(fs), list(os_), th, "gt", wh, ww, pad)}
+    kw = dict(window_size=win, spatial_dims=sdims, **rkw)
+    if wr["zero_padding"] != "omitted":
+        kw["zero_padding"] = pad
+    if wr["compute_method"] != "omitted":
+        kw["compute_method"] = FssComputeMethod.NUMPY
+    if wr["dask"] != "omitted":
+        kw["dask"] = wr["dask"]
+    if c["fn"] == "fss_2d":
+        if wr["threshold_operator"] != "omitted":
+            kw["threshold_operator"] = None if wr["threshold_operator"] == "None" else np.greater
+        impl = core.call_impl(S.spatial.fss_2d, da_f, da_o, event_threshold=float(th), **kw)
+    else:
+        if wr["check_boolean"] != "omitted":
+            kw["check_boolean"] = wr["check_boolean"] == "True"
+        dt = {"bool": bool, "float 0/1": float, "uint8 0/1": np.uint8}[c["storage"]]
+        impl = core.call_impl(S.spatial.fss_2d_binary, (da_f > float(th)).astype(dt), (da_o > float(th)).astype(dt), **kw)
+    ctx.case(c, True)
+    judge_stack(ctx, c["fn"] + " (optional arguments as written)", c, impl, preserved, exp[pad], pad, wh, ww)
+    ctx.count("options:" + c["fn"])
+    for k, v in wr.items():
+        if k != "request":
+            ctx.count("options:%s=%s" % (k, v))
+    ctx.count("options:request:" + rname)
+
+
+def option_matrix(ctx, S, n2d, nbin):
+    """deterministic part of the optional-argument coverage: on stacked fields with ties at the threshold the full product of
+    (operator left out / None / np.greater) x (zero_padding left out / False / True) x (compute_method left out / NUMPY) x (dask left out /
+    given) x (nine ways of writing the reduce / preserve request) x (spatial_dims in either order, window following it) for fss_2d,
+    the corresponding product for fss_2d_binary (check_boolean left out / True / False; bool, 0/1 float and 0/1 uint8 storage), and
+    operator x padding x compute_method for fss_2d_single_field on every field of the stack; all against direct window counting"""
+    rng = ctx.rng
+    for i in range(max(n2d, nbin)):
+        if not ctx.time_left():
+            return
+        T = rng.choice([2, 2, 3])
+        H, W, wh, ww, th, fs, os_ = tie_stack(rng, T)
+        coords = {"t": list(range(T)), "x": list(range(H)), "y": list(range(W))}
+        da_f = xr.DataArray(np.stack(fs), dims=["t", "x", "y"], coords=coords)
+        da_o = xr.DataArray(np.stack(os_), dims=["t", "x", "y"], coords=coords)
+        if rng.random() < 0.5:
+            da_o = da_o.transpose("y", "t", "x")                    # stored dimension order is irrelevant
+        exp = {pad: stack_expected(fs, os_, th, "gt", wh, ww, pad) for pad in (False, True)}
+        base = {"fcst": gens.da_repr(da_f), "obs": gens.da_repr(da_o), "event_threshold": th, "operator": "gt",
+                "note": "optional-argument matrix: every fcst and obs field has cells equal to the threshold; fss_2d_binary is given "
+                        "fcst > event_threshold, obs > event_threshold in the named storage"}
+        dask_given = rng.choice(["forbidden", "allowed", "parallelized"])
+        orders = [(("x", "y"), (wh, ww)), (("y", "x"), (ww, wh))]
+        if i < n2d:
+            for (ops, pads, cm, dk, req, (sdims, win)) in itertools.product(
+                    OPERATOR_SPELLINGS, PADDING_SPELLINGS, ("omitted", "explicit"), ("omitted", dask_given), REQUESTS, orders):
+                written_call(ctx, S, dict(base, fn="fss_2d", window_size=list(win), spatial_dims=list(sdims), written={
+                    "threshold_operator": ops, "zero_padding": pads, "compute_method": cm, "dask": dk, "request": req[0]}), exp)
+            # single fields: operator x padding x compute_method on every field of the stack
+            for k in range(T):
+                for ops, pads, cm in itertools.product(OPERATOR_SPELLINGS, PADDING_SPELLINGS, ("omitted", "explicit")):
+                    spl = {"threshold_operator": ops, "zero_padding": "omitted" if pads == "omitted" else "explicit", "compute_method": cm}
+                    single_case(ctx, S, fs[k], os_[k], th, "gt", wh, ww, pads == "True", spelling=spl)
+                    ctx.count("options:fss_2d_single_field")
+        if i < nbin:
+            for storage, checks in (("bool", ("omitted", "True", "False")), ("float 0/1", ("False",)), ("uint8 0/1", ("False",))):
+                for (chk, pads, cm, dk, req, (sdims, win)) in itertools.product(
+                        checks, PADDING_SPELLINGS, ("omitted", "explicit"), ("omitted", dask_given), REQUESTS, orders):
+                    written_call(ctx, S, dict(base, fn="fss_2d_binary", storage=storage, window_size=list(win), spatial_dims=list(sdims), written={
+                        "check_boolean": chk, "zero_padding": pads, "compute_method": cm, "dask": dk, "request": req[0]}), exp)
+        ctx.count("options:tie_changes_every_score")
 
 
 # ------------------------------------------------------------------------------------------
@@ -733,8 +1077,14 @@ def dense_case(ctx, S, gen, sample=False):
     sums_code, sums_def = fast_sums(bf, bo, wh, ww, pad, True), fast_sums(bf, bo, wh, ww, pad, False)
     sat, spec = fss_of_sums(sums_code), fss_of_sums(sums_def)
     maxc = fast_sums(bf, bo, wh, ww, pad, False, want_max=True)
-    kw = dict(event_threshold=float(th), window_size=(wh, ww), zero_padding=pad, threshold_operator=np_op(op))
-    desc = {"fn": "fss_2d_single_field", "generated": gen, "shape": [H, W], "events_fcst_obs": [int(bf.sum()), int(bo.sum())],
+    # how the operator / padding are written follows from the generator seed (so that a replay repeats it): the default operator is
+    # left out, None or np.greater; a False padding flag is left out half of the time
+    k3 = int(gen["np_seed"]) % 3
+    spl = {"threshold_operator": ["omitted", "None", "explicit"][k3] if op == "gt" else "explicit",
+           "zero_padding": "omitted" if (not pad and (int(gen["np_seed"]) // 3) % 2) else "explicit"}
+    kw = dict(event_threshold=float(th), window_size=(wh, ww), **spelled_kwargs(spl, op, pad))
+    count_spelling(ctx, spl)
+    desc = {"fn": "fss_2d_single_field", "generated": gen, "shape": [H, W], "events_fcst_obs": [int(bf.sum()), int(bo.sum())], "spelling": spl,
             "largest_window_count": maxc, "event_threshold": th, "operator": op, "window_size": [wh, ww], "zero_padding": pad,
             "note": "fields are rebuilt from `generated` by harness/props/c16.py::make_dense_pair"}
     impl = core.call_impl(S.spatial.fss_2d_single_field, f, o, **kw)
@@ -791,7 +1141,8 @@ def dense_case(ctx, S, gen, sample=False):
     d3 = dict(d2, fn="fss_2d_binary")
     with np.errstate(invalid="ignore"):
         ev_f, ev_o = np_op(op)(da_f, float(th)), np_op(op)(da_o, float(th))
-    bin_ = core.call_impl(S.spatial.fss_2d_binary, ev_f, ev_o, window_size=(wh, ww), spatial_dims=("y", "x"), zero_padding=pad, reduce_dims="all")
+    bin_ = core.call_impl(S.spatial.fss_2d_binary, ev_f, ev_o, window_size=(wh, ww), spatial_dims=("y", "x"), reduce_dims="all",
+                          **{k: v for k, v in kw.items() if k == "zero_padding"})
     ctx.case(d3, True)
     judge_scalar(ctx, "fss_2d_binary (large neighbourhood)", d3, (bin_[0], float(bin_[1]) if bin_[0] == "ok" else bin_[1]), asat, aspec, pad, wh, ww)
     ctx.count("dense:xarray_fields=%d" % (0 if lone else T))
@@ -833,6 +1184,7 @@ def run_without_model(ctx):
     known_reproduction(ctx, S)
     tiny_all_fields(ctx, S, 4 if thorough else 3)
     exhaustive_single(ctx, S, 5 if thorough else 4, ctx.n(2, 10))
+    option_matrix(ctx, S, ctx.n(2, 10), ctx.n(1, 5))
     thresholds_and_nan(ctx, S, ctx.n(400, 4000))
     malformed_single(ctx, S, ctx.n(30, 200))
     large_fields(ctx, S, ctx.n(24, 300), ctx.n(4, 30), ctx.n(8, 40))
@@ -850,11 +1202,17 @@ def replay(ctx, rec):
     if "generated" in c:
         dense_case(ctx, S, c["generated"])
         return
-    if fn == "fss_2d_single_field":
+    if "written" in c:
+        written_call(ctx, S, c)
+        return
+    if fn == "fss_2d_single_field" and "operator" in c:
         f = np.array([[float(x) for x in r] for r in c["fcst"]], dtype=float).astype(c.get("fcst_dtype", "float64"))
         o = np.array([[float(x) for x in r] for r in c["obs"]], dtype=float).astype(c.get("obs_dtype", "float64"))
         wh, ww = c["window_size"]
-        single_case(ctx, S, f, o, Fraction(c["event_threshold"]), c["operator"], int(wh), int(ww), bool(c["zero_padding"]))
+        # files written before round 4 do not say how the operator was written: try it both ways
+        for spl in ([c["spelling"]] if "spelling" in c else [OLD_SPELLING] + ([{"zero_padding": "explicit", "threshold_operator": "omitted"}]
+                                                                                 if c["operator"] == "gt" else [])):
+            single_case(ctx, S, f, o, parse_th(c["event_threshold"]), c["operator"], int(wh), int(ww), bool(c["zero_padding"]), spelling=spl)
         return
     if fn in ("fss_2d", "fss_2d_binary"):
         fcst, obs = gens.da_from_repr(c["fcst"]), gens.da_from_repr(c["obs"])
@@ -865,24 +1223,27 @@ def replay(ctx, rec):
         mf, mo = model_view(fcst, obs)
         wh, ww = c["window_size"]
         pad, rd, pd = bool(c["zero_padding"]), c.get("reduce_dims"), c.get("preserve_dims")
-        kw = dict(window_size=(wh, ww), zero_padding=pad)
-        if rd is not None:
-            kw["reduce_dims"] = rd
-        if pd is not None:
-            kw["preserve_dims"] = pd
+        spl = c.get("spelling", OLD_SPELLING)
         if fn == "fss_2d":
             sp = tuple(c["spatial_dims"])
-            th, op = Fraction(c["event_threshold"]), c["operator"]
-            impl = core.call_impl(S.spatial.fss_2d, fcst, obs, event_threshold=float(th), spatial_dims=sp, threshold_operator=np_op(op), **kw)
-            lone_vs_stacked(ctx, S.spatial.fss_2d, "fss_2d", c, fcst, obs, impl,
-                            dict(kw, event_threshold=float(th), spatial_dims=sp, threshold_operator=np_op(op)))
+            th, op = parse_th(c["event_threshold"]), c["operator"]
+            kw = dict(window_size=(wh, ww), event_threshold=float(th), spatial_dims=sp, **spelled_kwargs(spl, op, pad, rd, pd))
+            impl = core.call_impl(S.spatial.fss_2d, fcst, obs, **kw)
+            lone_vs_stacked(ctx, S.spatial.fss_2d, "fss_2d", c, fcst, obs, impl, kw)
             m = ctx.model("c16_fss2d", enc_list([enc_arr(mf), enc_arr(mo), enc_num(th), enc_str(op), str(wh), str(ww),
                                                  enc_list([enc_str(s) for s in sp]), enc_bool(pad), enc_dimspec(rd), enc_dimspec(pd)]))
         else:
             as_bool, check = bool(c["bool_dtype"]), bool(c["check_boolean"])
-            fb, ob = (fcst.astype(bool), obs.astype(bool)) if as_bool else (fcst, obs)
-            impl = core.call_impl(S.spatial.fss_2d_binary, fb, ob, spatial_dims=("x", "y"), check_boolean=check, **kw)
-            lone_vs_stacked(ctx, S.spatial.fss_2d_binary, "fss_2d_binary", c, fb, ob, impl, dict(kw, spatial_dims=("x", "y"), check_boolean=check))
+            store = c.get("storage", "bool" if as_bool else "float64")
+            fb, ob = fcst.astype(store), obs.astype(store)
+            kw = dict(window_size=(wh, ww), spatial_dims=("x", "y"), **spelled_kwargs(dict(spl, check_boolean=spl.get("check_boolean", "explicit")),
+                                                                                     "gt", pad, rd, pd, check))
+            kw.pop("threshold_operator", None)
+            impl = core.call_impl(S.spatial.fss_2d_binary, fb, ob, **kw)
+            lone_vs_stacked(ctx, S.spatial.fss_2d_binary, "fss_2d_binary", c, fb, ob, impl, kw)
+            if check and not as_bool and impl[0] == "ok":
+                ctx.violation("fss_2d_binary scores a non-boolean field although check_boolean is on", c, "FieldTypeError", gens.da_repr(impl[1]))
+                return
             m = ctx.model("c16_binary", enc_list([enc_arr(mf), enc_arr(mo), enc_bool(as_bool), enc_bool(check), str(wh), str(ww),
                                                   enc_list([enc_str("x"), enc_str("y")]), enc_bool(pad), enc_dimspec(rd), enc_dimspec(pd)]))
         ctx.case(c, impl[0] == "ok")
@@ -902,6 +1263,7 @@ def run(ctx):
     ctx.exhaustive = bool(done and done_tiny)
     ctx.note("geometry space (shape x window x padding) enumerated completely up to %s; binary field pairs enumerated completely up to %d cells, "
              "sampled above" % ("5x5" if thorough else "4x4", cells))
+    option_matrix(ctx, S, ctx.n(2, 10), ctx.n(1, 5))
     thresholds_and_nan(ctx, S, ctx.n(400, 8000))
     malformed_single(ctx, S, ctx.n(40, 400))
     large_fields(ctx, S, ctx.n(24, 300), ctx.n(4, 30), ctx.n(8, 40))
